@@ -13,6 +13,7 @@ Everything is extracted from src/network/server.rs (brace-matched function bodie
 * `execSelectSelects` — `handle_exec` runs a queued SELECT through `handle_select(cmd_parts, conn_id)` (it selects)
 * `randomByEffect` — SPOP / `XADD key *` are excluded from the verbatim append and appended after the dispatch as `effect_entry(…)`
 * `evalshaAsEval`  — EVALSHA is excluded likewise and `handle_evalsha_command` appends the `EVAL script …` it stands for
+* `flushPerAppend` — per arm of `match self.config.fsync_policy` in `AofEngine::append_command`: is there a `writer.flush()`?
 * `selectTracked`  — the entry is written through `append_command_in_db(db, parts)`, which emits `SELECT db` on a database change
 
 `facts()` returns the same as a Python dict (used by lib/c11.py to configure the driver without importing a
@@ -185,6 +186,29 @@ def facts(src, strip_comments, fn_body, repo=None):
             if b is not None and re.search(APPEND_CALL, b):
                 sites.append("%s:%s" % (rel, m.group(1)))
     out["appendSites"] = sorted(set(sites))
+    # ---- every arm of the fsync policy in AofEngine::append_command hands the entry to the OS (`writer.flush()`)
+    aof_src = strip_comments(src("storage/aof.rs"))
+    apc = fn_body(aof_src, "append_command")
+    out["flushPerAppend"] = None
+    if apc is None:
+        out["errors"].append("fn append_command not found in storage/aof.rs")
+    else:
+        arms = []
+        for pol in ("Always", "EverySecond", "No"):
+            m = re.search(r"FsyncPolicy\s*::\s*%s\s*=>\s*\{" % pol, apc)
+            b = brace_block(apc, m.end()) if m else None
+            if b is None:
+                out["errors"].append("arm FsyncPolicy::%s not found in append_command" % pol)
+                arms = None
+                break
+            arms.append((pol, bool(re.search(r"\bwriter\s*\.\s*flush\s*\(\s*\)", b))))
+        if arms is not None:
+            # a flush after the match covers every arm
+            mm2 = re.search(r"match\s+self\s*\.\s*config\s*\.\s*fsync_policy\s*\{", apc)
+            tail = apc[mm2.end() + len(brace_block(apc, mm2.end()) or ""):] if mm2 else ""
+            after_all = bool(re.search(r"\bwriter\s*\.\s*flush\s*\(\s*\)", tail))
+            out["flushPerAppend"] = [(p, f or after_all) for p, f in arms]
+
     # ---- EXEC and a queued SELECT: run through handle_select with the connection's id (selects, never appended)?
     hexec = fn_body(server, "handle_exec")
     if hexec is None:
@@ -297,6 +321,13 @@ def generate(src, strip_comments, fn_body, header, repo=None):
         failed("selectTracked", "Bool", err or "append site not found")
     else:
         L.append("def selectTracked : Bool := %s" % ("true" if f["selectTracked"] else "false"))
+    L.append("")
+    L.append("/-- per fsync policy: does `AofEngine::append_command` hand the entry to the OS (`writer.flush()`) on every append?")
+    L.append("    (then a reader of the file sees every acknowledged entry; fsync — durability against power loss — is another matter) -/")
+    if f["flushPerAppend"] is None:
+        failed("flushPerAppend", "List (String × Bool)", err or "append_command not recognised")
+    else:
+        L.append("def flushPerAppend : List (String × Bool) := [%s]" % ", ".join('("%s", %s)' % (p, "true" if b else "false") for p, b in f["flushPerAppend"]))
     L.append("")
     L.append("/-- are SPOP and `XADD key *` appended after the dispatch by their effect (`is_logged_by_effect`, `effect_entry`:")
     L.append("    `SREM key members…`, `XADD key <assigned id> …`) instead of verbatim before it? -/")
